@@ -869,6 +869,43 @@ pub fn overload_handoff_programs() -> Vec<Program> {
     out
 }
 
+/// C04/C09: cancel() with a full ring, the cancelled root finished by ANOTHER thread. Thread A fills
+/// its ring, finishes `ahead` roots (their commits are parked), cancels root 1 (parked behind them); a
+/// collector cycle empties the ring; A then issues `sends` ordinary (best-effort) submissions, each of
+/// which has to replay the parked commands first; thread B finishes root 1; a cycle follows. With
+/// `sends` = 0 (family `C04-ring-remote-idle`) nothing replays the parked cancel before B's commit.
+pub fn overload_remote_finish_programs() -> Vec<Program> {
+    let mut out = Vec::new();
+    for sends in [0usize, 1, 2, 3] {
+        for ahead in [0u32, 1, 2, 3] {
+            let mut a = vec![Op::Warm, root(9, "via", 0x9F)];
+            for i in 0..ahead {
+                a.push(root(20 + i, &format!("r.ahead{i}"), 0xA0 + i as u128));
+            }
+            a.extend([root(1, "r1", 0x91), child(2, "c1", 1), finish(2), Op::Fill { leave: 0, via: 9 }]);
+            for i in 0..ahead {
+                a.push(finish(20 + i));
+            }
+            a.extend([cancel(1), sig(41), wait(50)]);
+            for i in 0..sends {
+                a.push(addevent(9, &format!("after{i}")));
+            }
+            a.extend([sig(43), wait(60), finish(9)]);
+            let b = vec![Op::Warm, wait(43), finish(1), sig(44)];
+            let fam = if sends == 0 { "C04-ring-remote-idle" } else { "C04-ring-remote-finish" };
+            let mut p = Program::new(format!("{fam}#s{sends}a{ahead}")).worker("A", a).worker("B", b);
+            p.actors.push(Actor {
+                name: "collector".into(),
+                kind: ActorKind::Collector { atomic: true, pop_yields: 0 },
+                ops: vec![Op::Wait(41), Op::Cycle, Op::Signal(50), Op::Wait(44), Op::Cycle, Op::Signal(60), Op::Cycle],
+                after_exit_of: None,
+            });
+            out.push(p);
+        }
+    }
+    out
+}
+
 /// Larger configurations than the generators reach: more threads, more spans per trace, deeper
 /// nesting, longer parent lists, many traces ending in one cycle, many quiet cycles in a trace's
 /// life. Each is one program (x every placement of its collector cycles); they run under the rules
@@ -1287,6 +1324,9 @@ pub fn reentrant_programs() -> Vec<Program> {
         ("local_span.with_properties", Op::LocalEnter { name: "o.l".into(), props: p("o", "1") }, false),
         ("local_span.add_properties", Op::LocalAddProps { props: p("o", "1") }, false),
         ("event.with_properties->local", Op::LocalAddEvent { name: "o.le".into(), props: p("o", "1") }, false),
+        // the deprecated free-standing forms take the closure themselves
+        ("Event::add_to_parent", Op::AddEvent { slot: 0, name: "dep.o.e".into(), props: p("o", "1") }, false),
+        ("Event::add_to_local_parent", Op::LocalAddEvent { name: "dep.o.le".into(), props: p("o", "1") }, false),
     ];
     let mut out = Vec::new();
     let mut idx = 0;
